@@ -242,6 +242,9 @@ func (wn *WNode) startWork(baseDir string, tcp bool) error {
 // RestartWork throws the workceptor and control service away and starts new ones on the same data directory, as a
 // daemon restart does for everything the work subsystem keeps in memory.
 func (wn *WNode) RestartWork(baseDir string) error {
+	// the old instance's unit objects and their goroutines cannot be stopped from outside; after a real restart they would not
+	// exist, so they are at least kept from writing status records (hook VerifMarkDead)
+	workceptor.VerifMarkDead(wn.W)
 	wn.wcancel()
 	time.Sleep(50 * time.Millisecond)
 	return wn.startWork(baseDir, wn.TCPAddr != "")
